@@ -239,4 +239,103 @@ def quarterMicros (w d h m sec ms us : Int) : Int :=
 
 def clampTimeout (z : Int) : Nat := z.toNat
 
+/-! ### wave 5 — the clock advances INSIDE a request
+
+The code reads `datetime.now()` at four places: `_update_instance_timestamp` (one read), `create_instance`
+(one read, after its sweep), `_timeout_instances` (one read PER KEY of the snapshot `tuple(keys)`), and the file
+adapter's `load_instance` (one read per restored instance).  A request is now given by its start time `t` and
+the increments `incs` by which the clock advances after each read: read number `n` (0-based, in program
+order) returns `rdOf t incs n = t + incs[0] + … + incs[n-1]` — non-decreasing by construction, the first
+read is `t`, no read exceeds `t + incs.sum`.  Every `…R` function returns the number of reads it consumed
+(compared with the number of reads the real code performs).
+
+`stampOf` is what `_update_instance_timestamp` / `create_instance` store for a clock reading: the reading
+itself (`stampExact`), or — the seeded defect `timestamp-whole-seconds` — the reading truncated to whole
+seconds, i.e. a stored "last access" EARLIER than every clock read of the request. -/
+
+abbrev Rd := Nat → Nat
+
+def rdOf (t : Nat) (incs : List Nat) : Rd := fun n => t + (incs.take n).sum
+
+structure CfgR where
+  keepAliveRestores : Bool
+  stampExact : Bool
+deriving DecidableEq, Repr
+
+def CfgR.base (c : CfgR) : Cfg := { keepAliveRestores := c.keepAliveRestores }
+
+def stampOf (c : CfgR) (t : Nat) : Nat := if c.stampExact then t else t / 1000000 * 1000000
+
+/-- one iteration of the loop of `_timeout_instances`: key `k`, clock reading `t` -/
+def sweepOne (t k : Nat) (s : State) : State :=
+  { s with insts := s.insts.filter (fun i => !(i.id == k && expired t i))
+           destroyed := s.destroyed ++ (s.insts.filter (fun i => i.id == k && expired t i)).map (·.id) }
+
+/-- the loop over the key snapshot, read `n`, `n+1`, … -/
+def sweepKeys (rd : Rd) : List Nat → Nat → State → State
+  | [], _, s => s
+  | k :: ks, n, s => sweepKeys rd ks (n + 1) (sweepOne (rd n) k s)
+
+/-- `_timeout_instances` starting at read `n`; consumes one read per instance present at its start -/
+def sweepR (rd : Rd) (n : Nat) (s : State) : State := sweepKeys rd (s.insts.map (·.id)) n s
+
+/-- instance-scoped view: [restore: read] · timestamp: read · sweep: reads · view body -/
+def accessR (c : CfgR) (rd : Rd) (s : State) (k : Nat) (kind : Kind) : State × Bool × Nat :=
+  match ensure s (rd 0) k with
+  | (_, false) => (s, false, 0)
+  | (s1, true) =>
+    let n0 := if hasId s k then 0 else 1
+    let s2 := touch (stampOf c (rd n0)) k s1
+    let s3 := sweepR rd (n0 + 1) s2
+    let n3 := n0 + 1 + s2.insts.length
+    match findInst s3 k with
+    | none => (s3, false, n3)
+    | some i => ((applyKind s3 i kind).1, (applyKind s3 i kind).2, n3)
+
+def keepAliveR (c : CfgR) (rd : Rd) (s : State) (k : Nat) : State × Bool × Nat :=
+  match (if c.keepAliveRestores then ensure s (rd 0) k else (s, hasId s k)) with
+  | (_, false) => (s, false, 0)
+  | (s1, true) =>
+    let n0 := if hasId s k then 0 else 1
+    let s2 := touch (stampOf c (rd n0)) k s1
+    (sweepR rd (n0 + 1) s2, true, n0 + 1 + s2.insts.length)
+
+def createR (c : CfgR) (rd : Rd) (s : State) (τ : Nat) : State × Bool × Nat :=
+  let s1 := sweepR rd 0 s
+  let n1 := s.insts.length
+  ({ s1 with insts := s1.insts ++ [{ id := s1.next, last := stampOf c (rd n1), timeout := τ, sess := false }]
+             next := s1.next + 1 }, true, n1 + 1)
+
+def loadKeys (rd : Rd) : List (Nat × Nat) → Nat → State → State
+  | [], _, s => s
+  | kτ :: rest, n, s => loadKeys rd rest (n + 1) (loadOne (rd n) s kτ)
+
+def stepR (c : CfgR) (rd : Rd) (s : State) : Ev2 → State × Bool × Nat
+  | .old (.create τ) => createR c rd s τ
+  | .old (.access k kind) => accessR c rd s k kind
+  | .old (.keepAlive k) => keepAliveR c rd s k
+  | .old .metrics => (sweepR rd 0 s, true, s.insts.length)
+  | .old .fullMetrics => (sweepR rd 0 s, true, s.insts.length)
+  | .stop k => (stopInst s k, true, 0)
+  | .saveState => ((saveState s).1, true, 0)
+  | .loadState => (loadKeys rd (storedIds s) 0 s, true, (storedIds s).length)
+
+/-- a timed request: start time, clock increments after each read, event -/
+abbrev Req := Nat × List Nat × Ev2
+
+def runR (c : CfgR) (s : State) : List Req → State
+  | [] => s
+  | (t, incs, e) :: rest => runR c (stepR c (rdOf t incs) s e).1 rest
+
+/-- a request starts no earlier than the previous one ended (`t + incs.sum`) -/
+def wellTimedR (t0 : Nat) : List Req → Bool
+  | [] => true
+  | (t, incs, _) :: rest => decide (t0 ≤ t) && wellTimedR (t + incs.sum) rest
+
+def endTimeR (t0 : Nat) : List Req → Nat
+  | [] => t0
+  | (t, incs, _) :: rest => endTimeR (t + incs.sum) rest
+
+def isTriggerR (c : CfgR) (s : State) (k : Nat) : Ev2 → Bool := isTrigger2 c.base s k
+
 end Bptk.C17
